@@ -27,6 +27,7 @@ func regEff(name, desc string, f modelFn) { models[name] = &model{f: f, desc: de
 
 const digestStreamField = 9001
 const bufferContentField = 9002
+const builderContentField = 9003
 
 func pureModel(full string) bool {
 	m, ok := models[full]
@@ -475,6 +476,84 @@ func init() {
 		}
 		return []Val{Add(Add(Mul(by(0), IntT(16777216)), Mul(by(1), IntT(65536))), Add(Mul(by(2), IntT(256)), by(3)))}
 	})
+	// ---- strings.Builder by its content
+	sb := "(*strings.Builder)."
+	appendTo := func(ex *Exec, st *State, b *Term, s *Term) {
+		cur := st.heap.loadLeaf(Fld(b, builderContentField), SStr)
+		r := SConcat(cur, s)
+		if r.Op == "uf" && !r.hasBound {
+			ex.fact(nil, And(Eq(SLen(r), Add(SLen(cur), SLen(s))), Ge(SLen(cur), IntT(0)), Ge(SLen(s), IntT(0))))
+		}
+		st.heap.storeLeaf(Fld(b, builderContentField), r)
+	}
+	regEff(sb+"WriteString", "appends the string", func(ex *Exec, a []Val, st *State, sig *types.Signature) []Val {
+		appendTo(ex, st, tm(a[0]), tm(a[1]))
+		return []Val{ex.slen(tm(a[1])), nilIface()}
+	})
+	regEff(sb+"WriteByte", "appends one byte", func(ex *Exec, a []Val, st *State, sig *types.Signature) []Val {
+		c := tm(a[1])
+		s := UF("bytestr1", SStr, c)
+		if !c.hasBound {
+			ex.fact(nil, And(Eq(SLen(s), IntT(1)), Eq(SAt(s, IntT(0)), c)))
+		}
+		appendTo(ex, st, tm(a[0]), s)
+		return []Val{nilIface()}
+	})
+	regEff(sb+"WriteRune", "appends the UTF-8 encoding of the rune: one byte equal to the rune below 0x80, otherwise 1..4 bytes all >= 0x80", func(ex *Exec, a []Val, st *State, sig *types.Signature) []Val {
+		r := tm(a[1])
+		s := UF("runestr", SStr, r)
+		if !r.hasBound {
+			ex.fact(nil, Implies(And(Ge(r, IntT(0)), Lt(r, IntT(128))), And(Eq(SLen(s), IntT(1)), Eq(SAt(s, IntT(0)), r))))
+			ex.fact(nil, And(Ge(SLen(s), IntT(1)), Le(SLen(s), IntT(4))))
+		}
+		appendTo(ex, st, tm(a[0]), s)
+		return []Val{ex.slen(s), nilIface()}
+	})
+	reg(sb+"String", "the content written so far", func(ex *Exec, a []Val, st *State, sig *types.Signature) []Val {
+		return []Val{st.heap.loadLeaf(Fld(tm(a[0]), builderContentField), SStr)}
+	})
+	// ---- container/heap over a slice-backed heap.Interface (x *[]T): Push/Pop rearrange the slice;
+	// which element comes out (the minimum w.r.t. Less) is assumed, not modelled.
+	heapObj := func(ex *Exec, st *State, h *Agg) (p *Term, et types.Type) {
+		tag := tm(h.F[0])
+		id, ok := tag.IsInt()
+		if !ok {
+			unsupp("container/heap on an interface value of unknown dynamic type")
+		}
+		pt, ok := ex.typeOf[int(id)].Underlying().(*types.Pointer)
+		if !ok {
+			unsupp("container/heap: heap.Interface implementation is not a pointer to a slice")
+		}
+		sl, ok := pt.Elem().Underlying().(*types.Slice)
+		if !ok {
+			unsupp("container/heap: heap.Interface implementation is not a pointer to a slice")
+		}
+		return tm(h.F[1]), sl.Elem()
+	}
+	heapShuffle := func(ex *Exec, st *State, p *Term, et types.Type, delta int64) {
+		slT := types.NewSlice(et)
+		cur := st.heap.load(p, slT, nil).(*Agg)
+		ex.havocElems(st, tm(cur.F[0]), et)
+		var fs []*Term
+		nv := freshVal(slT, "heap.slice", &fs).(*Agg)
+		ex.addFacts(nil, fs)
+		ex.fact(nil, Eq(tm(nv.F[2]), Add(tm(cur.F[2]), IntT(delta))))
+		ex.assumeOlder(nv)
+		st.heap.store(p, slT, nv)
+	}
+	regEff("container/heap.Push", "the element is added to the slice-backed heap (length + 1); element order is not modelled", func(ex *Exec, a []Val, st *State, sig *types.Signature) []Val {
+		p, et := heapObj(ex, st, a[0].(*Agg))
+		heapShuffle(ex, st, p, et, 1)
+		return nil
+	})
+	regEff("container/heap.Pop", "removes and returns an element of the slice-backed heap (length - 1); that it is the minimum w.r.t. Less is assumed, not modelled", func(ex *Exec, a []Val, st *State, sig *types.Signature) []Val {
+		p, et := heapObj(ex, st, a[0].(*Agg))
+		heapShuffle(ex, st, p, et, -1)
+		var fs []*Term
+		v := freshVal(et, "heap.popped", &fs)
+		ex.addFacts(nil, fs)
+		return []Val{ex.makeInterface(st, v, et)}
+	})
 	// ---- slices.SortFunc: afterwards adjacent elements are ordered by the comparator (permutation not modelled)
 	regEff("slices.SortFunc", "elements are permuted so that cmp(s[j], s[j+1]) <= 0 for adjacent elements; only this ordering fact is assumed, contents are otherwise arbitrary", func(ex *Exec, a []Val, st *State, sig *types.Signature) []Val {
 		sl := a[0].(*Agg)
@@ -538,6 +617,9 @@ func (ex *Exec) ghostApply(st *State, g *GhostDecl, args []*Term, rt types.Type)
 		return UF("reader.fails", SBool, args[len(args)-1])
 	case "readerPos":
 		return Select(st.heap.array("G@readerPos", ghostSorts["readerPos"]), args[len(args)-1])
+	}
+	if g.Name == "builderContent" && len(args) == 1 {
+		return st.heap.loadLeaf(Fld(args[0], builderContentField), SStr)
 	}
 	if g.Name == "bufferContent" && len(args) == 1 {
 		return st.heap.loadLeaf(Fld(args[0], bufferContentField), SStr)
